@@ -1,2 +1,24 @@
-/- C06 — property theorems (being extended); the writer model these will be about: -/
-import E57.Model.Writer
+/-
+C06 — Blobs and image payloads round-trip byte-exactly (write side proved; read side: C11 + blobRead).
+
+`blob_patch` (E57/Proofs/WriterProps.lean): on any well-formed page writer, `Blob::write` leaves
+the logical stream = old stream with header(16 + len padded to 4) ++ data written at the old
+cursor and aligned, and returns the descriptor (old physical position, len) — for every length
+and every position relative to page boundaries.  `blobRead_exact_or_error`-style facts and the
+file-level round trip are exercised by the writer/reader suites; the composed theorem is future work.
+-/
+import E57.Proofs.WriterProps
+import E57.Proofs.History
+namespace E57.C06
+open E57
+
+theorem blob_write_effect (pw : PW) (data : Bytes) (hpw : pw.Inv) (pw' : PW) (b : BlobRef)
+    (h : blobWrite pw data = .ok (pw', b)) :
+    pw'.abs = (pw.abs.write (blobHeaderBytes ((16 + data.length + 3) / 4 * 4) ++ data)).align ∧
+      b = ⟨pw.physicalPosition, data.length⟩ := blob_patch pw data hpw pw' b h
+
+theorem blob_write_total (pw : PW) (data : Bytes) (hpw : pw.Inv) :
+    ∃ pw' b, blobWrite pw data = .ok (pw', b) ∧ pw'.Inv ∧ b.offset = pw.physicalPosition ∧
+      b.length = data.length := blobWrite_total pw data hpw
+
+end E57.C06
